@@ -2,6 +2,8 @@
 Structural causes of "spins forever" / "never exits" (DESIGN.md section 4)."""
 import re
 
+import common
+
 from mir import agg_stmts
 
 LEVEL = 'other'
@@ -118,22 +120,19 @@ def run(ctx):
             R3.missing(cfg, 'NotifyEventHandler::handle_event')
         else:
             sm = [c for c in hb.calls() if c.callee and c.callee.name == 'send_multiple']
-            ie = [c for c in hb.calls() if c.callee and c.callee.best == 'std::result::Result::<T, E>::is_err']
-            tk = [c for c in hb.calls() if c.callee and c.callee.best == 'std::option::Option::<T>::take' and 'watcher' in (hb.access_path(c.args[0]) or [])]
-            ok = len(sm) == 1 and len(ie) == 1 and len(tk) == 1
+            tk = [c for c in hb.calls() if c.callee and c.callee.best == 'std::option::Option::<T>::take' and 'watcher' in (common.deep_path(hb, c.args[0]) or [])]
+            ok = len(sm) == 1 and len(tk) == 1
             if ok:
-                ok = hb.access_path(ie[0].args[0]) == ['call@bb%d' % sm[0].bb, '&']
-                sw = [bb for bb, t in hb.terms() if t['k'] == 'switch' and hb.access_path(t['discr']) == ['call@bb%d' % ie[0].bb]]
-                ok = ok and len(sw) == 1
+                # (normal form) take() runs exactly when send_multiple returned Err, on every such path, and what it returns is dropped
+                g = [x for x in common.guards_of(hb, tk[0].bb) if x[3][0] == 'discr' and common.deep_path(hb, x[3][1]) == ['call@bb%d' % sm[0].bb]]
+                ok = len(g) >= 1 and all(common.guard_variant(hb, x) == 1 for x in g)
                 if ok:
-                    true = [d for d, lab in hb.edges(sw[0]) if lab != 'sw:0']
-                    # every path from the true edge passes take() (before leaving the iteration), and the taken watcher is dropped
-                    ok = len(true) == 1 and tk[0].bb in hb.reachable(true) and tk[0].bb not in hb.reachable([0], removed_edges=[(sw[0], true[0])])
-                    after = hb.reachable(true, removed_blocks=[tk[0].bb])
-                    ok = ok and not (after & set(hb.return_blocks())) and ie[0].bb not in after
-                    g = tk[0].dest['l']
-                    dropped = any(d.term['place']['l'] in hb.flows_to(g) for d in hb.drops()) or \
-                        any(u[0] == 'call' and u[2].callee and u[2].callee.best == 'std::mem::drop' for l in hb.flows_to(g) for u in hb.uses_of(l))
+                    errt = g[0][1]
+                    after = hb.reachable([errt], removed_blocks=[tk[0].bb])
+                    ok = not (after & set(hb.return_blocks())) and sm[0].bb not in after
+                    w = tk[0].dest['l']
+                    dropped = any(d.term['place']['l'] in hb.flows_to(w) for d in hb.drops()) or \
+                        any(u[0] == 'call' and u[2].callee and u[2].callee.best == 'std::mem::drop' for l in hb.flows_to(w) for u in hb.uses_of(l))
                     ok = ok and dropped
             R3.check(ok, cfg, hb.path, 'send-failure-drops-watcher', 'when send_multiple fails (the reloader is gone) the handler must drop(self.watcher.take()) so that notify stops', hb.loc())
         # R4
